@@ -173,19 +173,19 @@ Definition recover_func (r : user_result) : outcome value :=
   | UNoReturn => Diverge
   end.
 
-(* evalPrint: result = directive.Apply(result, args) inside the wrapper.  A nil result is not
-   checked: the next use (the next directive's value.String(), or result.String() after the loop)
-   dereferences it -- inside the next wrapper, or under Execute's errRecover: an error either way *)
-Definition recover_directive (r : user_result) : outcome value :=
+(* evalPrint: result = directive.Apply(result, args) inside the wrapper.  A nil result is NOT checked:
+   it is the value the next directive receives ([None]); whoever calls a method on it panics with a nil
+   dereference -- a builtin's value.String() inside the next wrapper, or result.String() after the loop
+   under Execute's errRecover -- but json.Marshal(nil) is "null" and noAutoescape hands it through *)
+Definition recover_directive (r : user_result) : outcome (option value) :=
   match r with
-  | UReturn (Some v) => Ok v
-  | UReturn None => Err e_nilresult
+  | UReturn x => Ok x
   | UPanic m => Err (e_userpanic ++ m)
   | UNoReturn => Diverge
   end.
 
 Record user_func := { uf_arities : list N; uf_apply : list value -> user_result }.
-Record user_directive := { ud_arities : list N; ud_cancel : bool; ud_apply : value -> list value -> user_result }.
+Record user_directive := { ud_arities : list N; ud_cancel : bool; ud_apply : option value -> list value -> user_result }.
 
 (* A HOOK is an entry of soyhtml.Funcs / soyhtml.PrintDirectives given by what the wrapped call
    answers: a user entry is the hook [recover_* o apply]; Model/InterpExt.v uses the same mechanism for
@@ -196,7 +196,7 @@ Definition hook_of_user (uf : user_func) : func_hook :=
 
 Inductive dir_impl :=
 | DBuiltin (fn : bstr) (nilapply : bool)                     (* an entry of the regenerated table, on String() images *)
-| DHook (apply : value -> list value -> outcome value).      (* on values, wrapper included *)
+| DHook (apply : option value -> list value -> outcome (option value)).   (* on values (None = nil), wrapper included *)
 Record dir_entry := { de_arities : list N; de_cancel : bool; de_impl : dir_impl }.
 Definition dir_of_user (ud : user_directive) : dir_entry :=
   {| de_arities := ud_arities ud; de_cancel := ud_cancel ud;
@@ -236,7 +236,7 @@ Definition truncate_keeps (fn : bstr) (args : list darg) (s : bstr) : bool :=
 (* evalPrint's directive loop on VALUES (a hooked directive receives and returns a data.Value; the
    builtin ones work on value.String() and return a data.String, except that noAutoescape and a
    truncate that has nothing to cut return the value they were given) *)
-Fixpoint apply_dirs_hook (dirs : list (bstr * list value)) (v : value) (esc : bool) : outcome (value * bool) :=
+Fixpoint apply_dirs_hook (dirs : list (bstr * list value)) (v : option value) (esc : bool) : outcome (option value * bool) :=
   match dirs with
   | [] => Ok (v, esc)
   | (name, args) :: rest =>
@@ -249,8 +249,12 @@ Fixpoint apply_dirs_hook (dirs : list (bstr * list value)) (v : value) (esc : bo
                   | DBuiltin fn nilapply =>
                       if nilapply then Err e_nilapply
                       else if Directives.fn_is fn fn_NoAutoescape then Ok v      (* `return value`: String() is not called *)
-                      else s <- value_string v ;; s' <- apply_fn fn (map darg_of args) s ;;
-                           Ok (if truncate_keeps fn (map darg_of args) s then v else VStr s')
+                      else match v with
+                           | None => Err e_nilresult                             (* value.String() on a nil interface *)
+                           | Some x =>
+                               s <- value_string x ;; s' <- apply_fn fn (map darg_of args) s ;;
+                               Ok (Some (if truncate_keeps fn (map darg_of args) s then x else VStr s'))
+                           end
                   | DHook ap => ap v args
                   end ;;
             apply_dirs_hook rest v' (esc && negb (de_cancel de))
@@ -259,8 +263,8 @@ Fixpoint apply_dirs_hook (dirs : list (bstr * list value)) (v : value) (esc : bo
 
 (* the Write calls of evalPrint after the loop: result.String(), escaped or not *)
 Definition print_writes_hook (mode : N) (dirs : list (bstr * list value)) (v : value) : outcome (list bstr) :=
-  '(v', esc) <- apply_dirs_hook dirs v (negb (mode =? 2)) ;;
-  s <- value_string v' ;;
+  '(v', esc) <- apply_dirs_hook dirs (Some v) (negb (mode =? 2)) ;;
+  s <- match v' with Some x => value_string x | None => Err e_nilresult end ;;
   Ok (if esc then esc_writes [] s else [s]).
 
 (* evalPrint checks each directive's name and arity before evaluating its arguments *)
